@@ -135,15 +135,19 @@ End HEAD.
    value carries its string form (GetValueAsString) because op=str compares
    numbers as strings. *)
 Inductive value :=
-| VNum (micro : Z) (repr : list N)      (* SS_DT_SIGNED_NUM / UNSIGNED_NUM / FLOAT *)
+| VNum (micro : Z) (repr : list N)      (* SS_DT_FLOAT *)
+| VInt (unsigned : bool) (bits : N) (repr : list N)
+                                        (* SS_DT_UNSIGNED_NUM (CVal uint64) / SS_DT_SIGNED_NUM (CVal int64):
+                                           the dtype and the 64 bits of CVal *)
 | VStr (num : option Z) (s : list N)    (* SS_DT_STRING; num = Some q iff MightBeFloat && ParseFloat succeeds *)
 | VNull.                                (* SS_DT_BACKFILL / SS_INVALID *)
 
 (* ---- 64-bit integer sort keys (SS_DT_SIGNED_NUM: CVal int64, SS_DT_UNSIGNED_NUM: CVal uint64) ----
-   The harness passes the 64-bit pattern of CVal and the dtype.  compareValues turns both
-   dtypes into float64 (GetFloatValueIfPossible: float64(int64) / float64(uint64)), i.e. the
-   mathematical value of the integer rounded to 53 significant bits, nearest, ties to even;
-   |value| < 2^64, so the exponent never overflows. *)
+   The harness passes the 64-bit pattern of CVal and the dtype.  Two integer-typed values are
+   compared exactly (compareInts); against a float or a numeric string an integer goes through
+   GetFloatValueIfPossible (float64(int64) / float64(uint64)), i.e. the mathematical value of
+   the integer rounded to 53 significant bits, nearest, ties to even; |value| < 2^64, so the
+   exponent never overflows. *)
 Definition int_of_bits (unsigned : bool) (bits : N) : Z :=
   if unsigned then Z.of_N bits
   else if (bits <? 9223372036854775808)%N then Z.of_N bits
@@ -165,10 +169,6 @@ Definition ulp_shift (n : Z) : Z := Z.max 0 (Z.log2 n - 52).
 Definition f64_of_int (n : Z) : Z :=
   if (n <? 0)%Z then (- rne (- n) (ulp_shift (- n)))%Z else rne n (ulp_shift n).
 
-(* the comparator's view of an integer-typed column value: its float64 image in units of 1e-6 *)
-Definition int_value (unsigned : bool) (bits : N) (repr : list N) : value :=
-  VNum (f64_of_int (int_of_bits unsigned bits) * 1000000)%Z repr.
-
 (* the integer survives the conversion unchanged *)
 Definition f64_exact (n : Z) : bool := (f64_of_int n =? n)%Z.
 
@@ -181,7 +181,7 @@ Definition rank_n (r : rank) : nat := match r with RNumeric => 1 | RString => 2 
 Definition get_rank (v : value) (op : sop) : rank :=
   match v with
   | VNull => ROther
-  | VNum _ _ => match op with OpStr => RString | _ => RNumeric end
+  | VNum _ _ | VInt _ _ _ => match op with OpStr => RString | _ => RNumeric end
   | VStr num _ =>
     match op with
     | OpStr => RString
@@ -208,10 +208,30 @@ Fixpoint bytes_ltb (a b : list N) : bool :=
 Definition compare_string (a b : list N) : cmp :=
   if list_eqb N.eqb a b then EQUAL else if bytes_ltb a b then LESS else GREATER.
 
+(* GetFloatValueIfPossible, in units of 1e-6 *)
 Definition num_of (v : value) : option Z :=
-  match v with VNum q _ => Some q | VStr n _ => n | VNull => None end.
+  match v with
+  | VNum q _ => Some q
+  | VInt u b _ => Some (f64_of_int (int_of_bits u b) * 1000000)%Z
+  | VStr n _ => n
+  | VNull => None
+  end.
 Definition str_of (v : value) : option (list N) :=
-  match v with VNum _ s => Some s | VStr _ s => Some s | VNull => None end.
+  match v with VNum _ s => Some s | VInt _ _ s => Some s | VStr _ s => Some s | VNull => None end.
+
+(* intBits: (negative?, the 64 bits) of an integer-typed value *)
+Definition int_negative (unsigned : bool) (bits : N) : bool :=
+  negb unsigned && (9223372036854775808 <=? bits)%N.
+
+(* compareInts: different signs decide; with the same sign the bits compare as uint64 (two's
+   complement keeps the numeric order) *)
+Definition compare_ints (ua : bool) (ba : N) (ub : bool) (bb : N) : cmp :=
+  let na := int_negative ua ba in
+  let nb := int_negative ub bb in
+  if negb (Bool.eqb na nb) then (if na then LESS else GREATER)
+  else if (ba <? bb)%N then LESS
+  else if (bb <? ba)%N then GREATER
+  else EQUAL.
 
 Definition flip (asc : bool) (c : cmp) : cmp :=
   if asc then c else match c with LESS => GREATER | GREATER => LESS | EQUAL => EQUAL end.
@@ -231,10 +251,14 @@ Definition compare_values (tol : Z) (a b : value) (asc : bool) (op : sop) : cmp 
     else if Nat.ltb (rank_n rb) (rank_n ra) then flip asc GREATER
     else match ra with
          | RNumeric =>
-           match num_of a, num_of b with
-           | None, _ => GREATER
-           | _, None => LESS
-           | Some x, Some y => flip asc (compare_float tol x y)
+           match a, b with
+           | VInt ua ba _, VInt ub bb _ => flip asc (compare_ints ua ba ub bb)   (* both IsInt() *)
+           | _, _ =>
+             match num_of a, num_of b with
+             | None, _ => GREATER
+             | _, None => LESS
+             | Some x, Some y => flip asc (compare_float tol x y)
+             end
            end
          | RString =>
            match str_of a, str_of b with
